@@ -256,3 +256,93 @@ def witness_instances(calc, inp):
             return contracts.witness_hyps(hyps)
         out.append(mk)
     return out
+
+
+# ---- conformance of the bias solver with its contract -------------------------------------------------------
+_VALID = {}
+
+
+def solver_conformance(name, info, calc=None):
+    """the pinv contract is the exact Moore-Penrose inverse; a call that passes a truncation parameter (atol / rtol / rcond) is
+    outside it.  Stated as a constant obligation on this path; whether it is a violation is decided by the replay, which runs
+    the real code in regimes where a truncation shows (rates small in absolute terms / spread over many decades)."""
+    kw = ENG.records.get('pinv_cutoff') or []
+    cut = []
+    if 'pinv' in ENG.records and calc is not None:
+        # contract validation: the REAL pseudo-inverse solver must behave like the contract (exact Moore-Penrose inverse) on the
+        # matrices this calculator produces; checked concretely in low-rate regimes (the null space of the projected rate matrix
+        # only shows as singular values at roundoff level, which a relative cutoff may or may not remove)
+        if name not in _VALID:
+            _VALID[name] = stress_exactness(calc, 24)
+        if _VALID[name][0]:
+            cut = ['real solver (truncation arguments %s) deviates from the Moore-Penrose contract: %s' % (kw, _VALID[name][1][:200])]
+    elif kw:
+        cut = kw
+    return [('%s:bias-solver-is-exact-pseudo-inverse' % name, not cut,
+             dict(info, sig='solver-exact', witnessed=True, soft=True, replayer='stress',
+                  extra=dict(info.get('extra') or {}, cutoff=repr(cut))))]
+
+
+def _numeric_D(calc, pre, E, preT, ET):
+    N, dim = calc.N, calc.dim
+    w = np.array([pre[calc.invmap[i]] * np.exp(-E[calc.invmap[i]]) for i in range(N)])
+    rho = w / w.sum()
+    L = np.zeros((N, N))
+    b = np.zeros((N, dim))
+    D0 = np.zeros((dim, dim))
+    scale = 0.0
+    for t, jl in enumerate(calc.jumpnetwork):
+        for (i, j), dx in jl:
+            W = preT[t] * np.exp(E[calc.invmap[i]] - ET[t]) / pre[calc.invmap[i]]
+            scale = max(scale, W)
+            L[i, j] += W
+            L[i, i] -= W
+            b[i] += W * dx
+            D0 += 0.5 * np.outer(dx, dx) * rho[i] * W
+    g = np.linalg.lstsq(L / scale, b / scale, rcond=None)[0]
+    return D0 + sum(rho[i] * 0.5 * (np.outer(b[i], g[i]) + np.outer(g[i], b[i])) for i in range(N))
+
+
+def stress_inputs(calc, trial):
+    """deterministic inputs: site energies spread over 2 kT, barriers base + spread*u above the highest site (rates down to 1e-11
+    and spread over up to 9 decades); in odd trials the first / last transition state sit at the two ends of the range"""
+    rng = np.random.RandomState(100 + trial)
+    nw, nt = len(calc.sitelist), len(calc.jumpnetwork)
+    E = rng.uniform(0, 2, nw)
+    base, spread = [(12, 4), (16, 6), (18, 6), (10, 14), (4, 20), (5, 21), (3, 19), (6, 20)][trial % 8]
+    u = rng.uniform(0, 1, nt)
+    if trial % 2 and nt > 1:
+        k = (trial // 8) % nt
+        u[k], u[(k + 1) % nt] = 0.0, 1.0
+    ET = E.max() + base + spread * u
+    return np.ones(nw), E, np.ones(nt), ET
+
+
+def stress_exactness(calc, ntrial=24):
+    for trial in range(ntrial):
+        pre, E, preT, ET = stress_inputs(calc, trial)
+        D = calc.diffusivity(pre, E, preT, ET)
+        Dref = _numeric_D(calc, pre, E, preT, ET)
+        sc = max(np.abs(Dref).max(), 1e-300)
+        if np.abs(D - Dref).max() > 1e-3 * sc:
+            return True, 'diffusivity %s differs from the exact value %s (rel %.2e) at E=%s ET=%s (unit prefactors)' % (
+                D.tolist(), Dref.tolist(), np.abs(D - Dref).max() / sc, E.tolist(), ET.tolist())
+    return False, 'diffusivity exact to 1e-3 in %d low-rate regimes' % ntrial
+
+
+def stress_monotone(calc, ntrial=24):
+    for trial in range(ntrial):
+        pre, E, preT, ET = stress_inputs(calc, trial)
+        for t in range(len(ET)):
+            prev = calc.diffusivity(pre, E, preT, ET)
+            for step in range(1, 13):
+                ET2 = ET.copy()
+                ET2[t] -= 0.5 * step
+                D2 = calc.diffusivity(pre, E, preT, ET2)
+                dd = D2 - prev
+                sc = max(np.abs(D2).max(), 1e-300)
+                if np.linalg.eigvalsh(0.5 * (dd + dd.T)).min() < -1e-3 * sc:
+                    return True, 'lowering transition state %d from %g to %g DEcreases the diffusivity: %s -> %s (E=%s ET=%s)' % (
+                        t, ET[t] - 0.5 * (step - 1), ET2[t], prev.tolist(), D2.tolist(), E.tolist(), ET.tolist())
+                prev = D2
+    return False, 'diffusivity monotone in %d low-rate regimes' % ntrial
